@@ -54,8 +54,13 @@ def w1(p, q, A):
         A_eq[n + i, i::n] = 1.0
     b_eq = np.concatenate([p, q])
     # the constraints are redundant by one (both marginals sum to one): drop the last to help the solver
-    res = linprog(c, A_eq=A_eq[:-1], b_eq=b_eq[:-1], bounds=(0, None), method="highs",
-                  options={"primal_feasibility_tolerance": 1e-10, "dual_feasibility_tolerance": 1e-10})
+    res = None
+    for opts in ({"primal_feasibility_tolerance": 1e-10, "dual_feasibility_tolerance": 1e-10},
+                 {"primal_feasibility_tolerance": 1e-10, "dual_feasibility_tolerance": 1e-10, "presolve": False},
+                 {}, {"presolve": False}):
+        res = linprog(c, A_eq=A_eq[:-1], b_eq=b_eq[:-1], bounds=(0, None), method="highs", options=opts)
+        if res.status == 0:
+            break
     if res.status != 0:
         raise RuntimeError(f"transport LP did not solve: {res.message}")
     return float(res.fun) * amax
